@@ -1030,6 +1030,11 @@ impl RelationalSlab {
         }
     }
 
+    /// Replace the contents of this slab with a snapshot.
+    pub fn replace_with(&self, snapshot: RelationalSlabSnapshot) {
+        *self.tables.write() = snapshot.tables;
+    }
+
     /// Restores from a snapshot.
     #[must_use]
     pub fn restore(snapshot: RelationalSlabSnapshot) -> Self {
